@@ -6,6 +6,7 @@
 From Coq Require Import List PeanoNat Bool String ZArith Sorted.
 From IprV Require Import GenTypes Scope GenCheck RBModel RBProofs Unify LexTables.
 From IprV.gen Require Import GenCmp.
+From IprV Require StateSpace.
 Import ListNotations.
 
 (* for every history h of declarations (name, type), in entry order: *)
@@ -65,6 +66,12 @@ Example c07_nonvacuous :
   Scope.lookup (Scope.run h) 2 = None.
 Proof. vm_compute. auto. Qed.
 
+(* scopes, overload sets and master records have the data members the Scope model abstracts (StateSpace.v against the regenerated GenState) *)
+Theorem c07_state_is_what_the_model_abstracts :
+  StateSpace.state_as_modelled (StateSpace.scope_state) = true.
+Proof. vm_compute. reflexivity. Qed.
+
+Print Assumptions c07_state_is_what_the_model_abstracts.
 Print Assumptions c07_scope_lists_entry_order.
 Print Assumptions c07_scope_type_is_product.
 Print Assumptions c07_lookup_iff_declared.
